@@ -47,6 +47,7 @@ type CTELexerContext struct {
 
 func (_this *CTELexerContext) RecordVerbatimSentinel(text string) {
 	_this.verbatimSentinel = text
+	_this.verbatimIndex = 0
 }
 
 func (_this *CTELexerContext) IsAtVerbatimSentinel(stream antlr.CharStream) bool {
